@@ -122,25 +122,30 @@ func (b *c05Book) want() c05PS {
 	return c05PS{b.open, b.epoch[0], b.epoch[1], b.epoch[2], b.epoch[3], b.epoch[4], b.epoch[5], b.epoch[6]}
 }
 
-// c05CheckPS evaluates the oracles on one observation.
-func c05CheckPS(out *vlib.Out, b *c05Book, have c05PS, when, replay string) {
+// c05CheckPS evaluates the oracles on one observation; false: one of them failed.
+func c05CheckPS(out *vlib.Out, b *c05Book, have c05PS, when, replay string) (good bool) {
 	out.Checked()
 	want := b.want()
+	good = true
 	if have[0] != want[0] {
+		good = false
 		out.OracleFail("C05:gauge-differs-from-open-sessions", fmt.Sprintf("%s: the gauge of open proxy sessions shows %d, %d session(s) are between addSession and removeSession", when, have[0], want[0]), replay)
 	}
 	for k := 1; k < 8; k++ {
 		if have[k] != want[k] {
+			good = false
 			out.OracleFail("C05:epoch-counter-differs", fmt.Sprintf("%s: ProxyStats sessions/newBytesUp/newBytesDown/completeBytesUp/completeBytesDown/zeroByteTunnelsUp/zeroByteTunnelsDown/completedSessions = %v, counted since the last epoch boundary: %v", when, have, want), replay)
 			break
 		}
 	}
 	for k := 0; k < 7; k++ {
 		if b.closed[k]+have[k+1] != b.total[k] {
+			good = false
 			out.OracleFail("C05:epochs-do-not-sum-to-totals", fmt.Sprintf("%s: counter %d: closed epochs %d + current epoch %d != %d counted in all", when, k, b.closed[k], have[k+1], b.total[k]), replay)
 			break
 		}
 	}
+	return good
 }
 
 // c05Epoch ends an epoch on s (print = PrintAndReset, else Reset) and checks what was reported.
@@ -275,7 +280,7 @@ const c05StatsWait = 10 * time.Second
 
 var c05SessAlphabet = []string{"S", "S0", "X", "Ec", "Es", "P", "Z"}
 
-// runC05Sessions plays one history; returns false when it had to be abandoned.
+// runC05Sessions plays one history; returns false when an oracle failed or it had to be abandoned.
 func runC05Sessions(out *vlib.Out, ln net.Listener, letters []string) bool {
 	replay := "sessions-scenario " + strings.Join(letters, ",")
 	ps := getProxyStats()
@@ -418,7 +423,11 @@ func runC05Sessions(out *vlib.Out, ln net.Listener, letters []string) bool {
 			break
 		}
 		have := settle()
-		c05CheckPS(out, b, have, when, replay)
+		if !c05CheckPS(out, b, have, when, replay) {
+			// reported; what follows in this history would only repeat it (after waiting 10 s each time)
+			abandoned = true
+			break
+		}
 		states = append(states, fmt.Sprintf("%d:%s", b.open, have))
 		out.Count("sessions-event:" + l)
 	}
@@ -428,8 +437,14 @@ func runC05Sessions(out *vlib.Out, ln net.Listener, letters []string) bool {
 			abandoned = true
 			break
 		}
+		if abandoned {
+			continue
+		}
 		have := settle()
-		c05CheckPS(out, b, have, "after the closing of the sessions left open", replay)
+		if !c05CheckPS(out, b, have, "after the closing of the sessions left open", replay) {
+			abandoned = true
+			continue
+		}
 		states = append(states, fmt.Sprintf("%d:%s", b.open, have))
 	}
 	if !abandoned {
@@ -462,10 +477,19 @@ func c05StatsSessions(out *vlib.Out) {
 	}
 	defer ln.Close()
 	maxLen := vlib.Budget(3, 5)
-	bad := 0
+	bad := 0 // histories on which an oracle failed: each costs up to 10 s of waiting, three are enough
+	// corpus: the shapes worth naming
+	for _, h := range [][]string{
+		{"S", "P", "Ec"}, {"S", "Z", "Es"}, {"S0", "P", "Ec", "P"}, {"S", "S", "P", "Ec", "P", "Es", "P"},
+		{"S", "X", "P", "X", "Ec", "P"}, {"S", "S0", "S", "Z", "Ec", "Ec", "Ec", "P"},
+	} {
+		if bad <= 2 && !runC05Sessions(out, ln, h) {
+			bad++
+		}
+	}
 	var rec func(prefix []string, open int)
 	rec = func(prefix []string, open int) {
-		if bad > 3 {
+		if bad > 2 {
 			return
 		}
 		// only maximal histories and those that end with an epoch or an end (their prefixes are checked on the way)
@@ -485,7 +509,7 @@ func c05StatsSessions(out *vlib.Out) {
 	}
 	rec(nil, 0)
 	r := vlib.NewRand("C05sessions")
-	for i, n := 0, vlib.Budget(60, 1500); i < n && bad <= 3; i++ {
+	for i, n := 0, vlib.Budget(60, 1500); i < n && bad <= 2; i++ {
 		var letters []string
 		open := 0
 		for j, k := 0, r.Range(4, 14); j < k; j++ {
@@ -498,13 +522,6 @@ func c05StatsSessions(out *vlib.Out) {
 		if !runC05Sessions(out, ln, letters) {
 			bad++
 		}
-	}
-	// corpus: the shapes worth naming
-	for _, h := range [][]string{
-		{"S", "P", "Ec"}, {"S", "Z", "Es"}, {"S0", "P", "Ec", "P"}, {"S", "S", "P", "Ec", "P", "Es", "P"},
-		{"S", "X", "P", "X", "Ec", "P"}, {"S", "S0", "S", "Z", "Ec", "Ec", "Ec", "P"},
-	} {
-		runC05Sessions(out, ln, h)
 	}
 }
 
